@@ -2,7 +2,7 @@
 import ast
 from vstatic import terms as T
 from vstatic.terms import sym, Term, Atom, lift, pretty, TRUE, FALSE
-from .common import B, selfattr, header_terms, RECORD_NO_INLINE
+from .common import dominates, B, selfattr, header_terms, RECORD_NO_INLINE
 
 RU = 'voltage.raw_utils.'
 OWNED = {
@@ -296,8 +296,25 @@ def run(ctx):
     adv = [e for e in I.events if e.kind == 'store' and e.data.get('target') == 'sub'
            and e.data['key'].key == lift('PKTIDX').key]
     if not adv:
-        ctx.ob('MUSTASSIGN', 'PKTIDX is advanced by the header writer exactly once per block', mk, False,
-               {'stores_into_PKTIDX': []}, node=mk.node, construct="header_dict['PKTIDX'] += samples_per_block")
+        # other accepted realisation: record() assigns PKTIDX per block, affine in the block ordinal
+        # (file index * blocks_per_file + block index) with slope samples_per_block, before the header is written
+        alt = [e for e in Ir.events if e.kind == 'store' and e.data.get('target') == 'sub' and e.func.short == rec.short
+               and e.data['key'].key == lift('PKTIDX').key and len(e.loops) >= 2]
+        ok_alt = False
+        detail = {'stores_into_PKTIDX': [e.text() for e in alt]}
+        if len(alt) == 1 and alt[0].data.get('aug') is None:
+            e = alt[0]
+            J0 = ctx.interp()
+            J0.heap = dict(Ir.heap)
+            k = ctx.spec(rec, 'FI * self.blocks_per_file + BJ', env={'FI': e.loops[-2]['index'], 'BJ': e.loops[-1]['index']}, I=J0)
+            rest = e.data['value'] - k * ctx.spec(rec, 'self.samples_per_block', I=J0)
+            ids = {e.loops[-2]['id'], e.loops[-1]['id']}
+            invariant = not any(a.kind in ('idx', 'loopvar', 'elem') and (set(map(str, a.args)) & ids) for a in T.all_atoms(rest).values())
+            ok_alt = invariant and dominates(e, mkh) and [l['id'] for l in e.loops] == [l['id'] for l in mkh.loops]
+            detail['value_minus_ordinal_times_step'] = pretty(rest)[:200]
+        ctx.ob('MUSTASSIGN', 'PKTIDX advances by samples_per_block from one block to the next (in the header writer, or assigned per '
+               'block by record() from the block ordinal)', mk if not alt else rec, ok_alt, detail,
+               node=(alt[0].node if alt else mk.node), construct="header_dict['PKTIDX'] per block")
         adv = None
     ok = adv is not None and len(adv) == 1 and adv[0].data.get('aug') == 'Add' and not adv[0].pc and not adv[0].loops
     if adv is not None:
@@ -419,11 +436,13 @@ META = {
     'technique': 'static analysis: residue-class evaluation of the extracted header-size expressions (RESIDUE), symbolic '
                  'value analysis of header cards (MUSTASSIGN/FORMULA), event order and guard dominance (ORDER/GUARDDOM), '
                  'taint of unordered listings (UNORDERED)',
-    'level': 'Decides from the source that the writer and the four readers compute 80*L + ((-80*L) mod 512 if DIRECTIO else 0) '
-             'for every header length (L mod 32 exhaustively, both DIRECTIO values), that the ten configuration-owned cards are '
-             'stored unconditionally with the stated values, the merge order and guards that preserve user cards, PKTIDX/END/'
-             'padding order, the file split formulas and that no unsorted directory listing is indexed. Acceptance by an '
-             'independent GUPPI reader is not decided.',
+    'level': 'Decides from the source that the writer and the four readers compute 80*L + ((-80*L) mod 512 if DIRECTIO else 0)'
+             ' for every header length (L mod 32 exhaustively, both DIRECTIO values), that the ten configuration-owned cards '
+             'are stored unconditionally with the stated values, the merge order and guards that preserve user cards, '
+             'PKTIDX/END/padding order (PKTIDX affine in the block ordinal), that read_header stops at the whole END card, '
+             'that the DIRECTIO card is tested as a number and not as text, the file split formulas (ceil(n/bpf) files, '
+             'remainder only in the last) and that no unsorted directory listing is indexed. Acceptance by an independent '
+             'GUPPI reader is not decided.',
     'note': 'Real arithmetic; f-string format specs compared syntactically; the card counter of each site is identified as its '
             'unique len()/loop-counter atom.',
 }
